@@ -114,7 +114,11 @@ class Symbol(Node):  # pylint: disable=too-few-public-methods
     """
 
     def get_str_repr(self, sons_repr):
-        return str(self.value)
+        value = str(self.value)
+        if value in SPECIAL_SYMBOLS or value == " ":
+            # An operator used as a symbol has to stay escaped
+            return "\\" + value
+        return value
 
     def get_cfg_rules(self, current_symbol, sons):
         """ Gets the rules for a context-free grammar to represent the \
